@@ -71,8 +71,8 @@ class Tokenizer:
         return self._tokens[self._index]
 
     def is_blank(self, tok: TokenInfo) -> bool:
-        if self._proc_macro and tok.type == Token.WS:
-            return False
+        if self._proc_macro and tok.type in (Token.WS, Token.NL):
+            return False  # a subprocess macro takes the rest of the bracket verbatim, line ends included
         if tok.type in {Token.NL, Token.COMMENT, Token.WS}:
             return True
         if tok.type == Token.ERRORTOKEN and tok.string.isspace():
